@@ -355,4 +355,64 @@ func TestVerifC05(t *testing.T) {
 		s, g := vC05NewScript(r.fork())
 		emit(s, vC05Run(s, g, masks, r.fork(), out))
 	}
+	if os.Getenv("VERIF_TIER") == "thorough" && !masks {
+		// small-scope exhaustive part: every script of 5 events over one cid and of 3 events over two cids
+		// (observations are taken after every event, so every shorter script is covered as a prefix)
+		vC05Enumerate(func(s *vC05Script) {
+			emit(s, vC05Run(s, nil, false, r.fork(), out))
+			out.count("enumerated")
+		})
+	}
+}
+
+// vC05Enumerate: alphabet per cid = track local recursive / local direct / remote, untrack, recover, complete ok / fault;
+// plus recoverall. A script does not start with a completion (nothing is in flight in a fresh tracker).
+func vC05Enumerate(run func(*vC05Script)) {
+	ev := func(ncid, code, tag int) (vC05Ev, bool) {
+		if code == 7*ncid {
+			return vC05Ev{K: "recoverall"}, false
+		}
+		c, k := code/7, code%7
+		switch k {
+		case 0:
+			return vC05Ev{K: "track", C: c, P: &vC05Pin{C: c, Tag: tag}}, false
+		case 1:
+			return vC05Ev{K: "track", C: c, P: &vC05Pin{C: c, Tag: tag, Direct: true}}, false
+		case 2:
+			return vC05Ev{K: "track", C: c, P: &vC05Pin{C: c, Tag: tag, Remote: true}}, false
+		case 3:
+			return vC05Ev{K: "untrack", C: c}, false
+		case 4:
+			return vC05Ev{K: "recover", C: c}, false
+		case 5:
+			return vC05Ev{K: "complete", C: c}, true
+		default:
+			return vC05Ev{K: "complete", C: c, Fault: true}, true
+		}
+	}
+	for _, cfg := range [][4]int{{1, 5, 1, 1}, {2, 3, 1, 1}, {2, 3, 1, 2}} { // ncid, length, q, np
+		ncid, length, q, np := cfg[0], cfg[1], cfg[2], cfg[3]
+		alpha := 7*ncid + 1
+		total := 1
+		for i := 0; i < length; i++ {
+			total *= alpha
+		}
+		for idx := 0; idx < total; idx++ {
+			s := &vC05Script{Q: q, NP: np, NCid: ncid}
+			x := idx
+			skip := false
+			for i := 0; i < length; i++ {
+				e, isComplete := ev(ncid, x%alpha, i+1)
+				x /= alpha
+				if i == 0 && isComplete {
+					skip = true
+					break
+				}
+				s.Evs = append(s.Evs, e)
+			}
+			if !skip {
+				run(s)
+			}
+		}
+	}
 }
